@@ -10,6 +10,9 @@ use crate::est::hex;
 pub trait HistT: Sized + Clone {
     const LEN: usize;
     fn h_from_ranges(v: Vec<f64>) -> Result<Self, String>;
+    /// from_ranges fed by an UNBOUNDED iterator (the given values followed by +inf forever); returns the
+    /// result and how many items were polled.  The iterator panics after `limit` polls (a runaway reader).
+    fn h_from_ranges_unbounded(v: Vec<f64>, limit: usize) -> (Result<Self, String>, usize);
     fn h_const_width(a: f64, b: f64) -> Self;
     fn h_find(&self, x: f64) -> Result<usize, ()>;
     fn h_add(&mut self, x: f64) -> Result<(), ()>;
@@ -46,6 +49,25 @@ macro_rules! hist_common {
                     E::NaN => "NaN".to_string(),
                 }
             })
+        }
+        fn h_from_ranges_unbounded(v: Vec<f64>, limit: usize) -> (Result<Self, String>, usize) {
+            let polls = std::rc::Rc::new(std::cell::Cell::new(0usize));
+            let p2 = polls.clone();
+            let it = v.into_iter().chain(std::iter::repeat(f64::INFINITY)).inspect(move |_| {
+                p2.set(p2.get() + 1);
+                if p2.get() > limit {
+                    panic!("from_ranges keeps reading an unbounded input ({} items polled)", p2.get());
+                }
+            });
+            let r = Self::from_ranges(it).map_err(|e| {
+                use $err as E;
+                match e {
+                    E::NotEnoughRanges => "NotEnoughRanges".to_string(),
+                    E::NotSorted => "NotSorted".to_string(),
+                    E::NaN => "NaN".to_string(),
+                }
+            });
+            (r, polls.get())
         }
         fn h_const_width(a: f64, b: f64) -> Self {
             Self::with_const_width(a, b)
@@ -138,7 +160,13 @@ mod macro_impls {
     hist_macro_impl!(H4, 4);
     hist_macro_impl!(H7, 7);
     hist_macro_impl!(H10, 10);
+    hist_macro_impl!(H15, 15);
+    hist_macro_impl!(H16, 16);
+    hist_macro_impl!(H31, 31);
+    hist_macro_impl!(H33, 33);
+    hist_macro_impl!(H64, 64);
     hist_macro_impl!(H100, 100);
+    hist_macro_impl!(H127, 127);
     hist_macro_impl!(average::Histogram10, 10);
 }
 
@@ -172,7 +200,13 @@ mod const_impls {
     hist_const_impl!(4);
     hist_const_impl!(7);
     hist_const_impl!(10);
+    hist_const_impl!(15);
+    hist_const_impl!(16);
+    hist_const_impl!(31);
+    hist_const_impl!(33);
+    hist_const_impl!(64);
     hist_const_impl!(100);
+    hist_const_impl!(127);
 }
 
 fn join_f(v: &[f64]) -> String {
